@@ -134,9 +134,17 @@ class ArgImpl:
         return "%s|in%d" % (await next_directive(parent_node, value, ctx), self.i)
 
 
+# schema names are plain strings: names differing only by letter case or by a surrounding blank are different schemas
+BUNDLE_NAMES = ["shop", "Shop", "shop ", "SHOP", " shop", "shoP", "Shop ", "sHop"]
+
+
+def bname(i):
+    return BUNDLE_NAMES[i] if i < len(BUNDLE_NAMES) else "bundle%d" % i
+
+
 def register(i, kinds):
     from tartiflette import Directive, Resolver, Scalar, Subscription, TypeResolver
-    name = "bundle%d" % i
+    name = bname(i)
     if "resolvers" in kinds:
         @Resolver("Query.value", schema_name=name)
         async def r_value(p, a, c, info):
@@ -201,15 +209,15 @@ def cook(i):
     # identical SDL text for every bundle (mode "same-sdl") or per-bundle differences
     sdl = (SDL + "\nextend type Item { only0: Int stock(n: Int = 0): Int }\nextend enum Level { L0 }\n") if SAME_SDL[0] else sdl_of(i)
     if i % 2:
-        return harness.run(create_engine(sdl, schema_name="bundle%d" % i, modules=[MODULE_DEF]))
+        return harness.run(create_engine(sdl, schema_name=bname(i), modules=[MODULE_DEF]))
     # ... and the other way of building an engine
     from tartiflette import Engine
     if i % 4 == 0:
         # the constructor names *another* bundle's schema and cook() overrides it (what cook() is given wins, as for every other setting)
-        eng = Engine(sdl, schema_name="bundle%d" % (i + 1), modules=[MODULE_DEF, "vf.c17_module_plain"])
-        harness.run(eng.cook(schema_name="bundle%d" % i))
+        eng = Engine(sdl, schema_name=bname(i + 1), modules=[MODULE_DEF, "vf.c17_module_plain"])
+        harness.run(eng.cook(schema_name=bname(i)))
         return eng
-    eng = Engine(sdl, schema_name="bundle%d" % i, modules=[MODULE_DEF, "vf.c17_module_plain"])
+    eng = Engine(sdl, schema_name=bname(i), modules=[MODULE_DEF, "vf.c17_module_plain"])
     harness.run(eng.cook())
     return eng
 
